@@ -23,6 +23,7 @@ Inductive expr :=
 | ERef (r : rid).                               (* a Rule object used as a parser *)
 
 Record rule := { rname : str; rdef : option expr; rexcl : option rid }.
+Inductive xres := XB (b : bool) | XG | XO.   (* outcome of one exclusion test *)
 Definition grammar := rid -> option rule.
 
 Section Engine.
@@ -127,34 +128,38 @@ Section Engine.
         end
       end.
 
-    (* Rule.lparse: the exclusion test = excluded.parse_all(text) does not raise ParseError *)
-    Definition excluded (x : option rid) (m : mtch) : option bool :=
+    (* Rule.lparse: the exclusion test = excluded.parse_all(text) does not raise ParseError.
+       XB b = the test's answer; XG = it raised GrammarError; XO = the model ran out of fuel *)
+    Definition excluded (x : option rid) (m : mtch) : xres :=
       match x with
-      | None => Some false
+      | None => XB false
       | Some r =>
         let t := nsvalue (nodes m) in
         match rec (ERef r) t 0 with
         | Ok ms =>
           match next_longest (set_of ms) with
-          | m0 :: _ => Some (negb (Nat.ltb (mend m0) (length t)))
-          | [] => Some false
+          | m0 :: _ => XB (negb (Nat.ltb (mend m0) (length t)))
+          | [] => XB false
           end
-        | PErr => Some false
-        | _ => None
+        | PErr => XB false
+        | GErr => XG
+        | OOF => XO
         end
       end.
 
-    Fixpoint filter_excl (x : option rid) (ms : list mtch) : option (list mtch) :=
+    (* filterfalse(exclude, g): Ok = the matches that are kept *)
+    Fixpoint filter_excl (x : option rid) (ms : list mtch) : res :=
       match ms with
-      | [] => Some []
+      | [] => Ok []
       | m :: ms' =>
         match excluded x m with
-        | Some b =>
+        | XB b =>
           match filter_excl x ms' with
-          | Some r => Some (if b then r else m :: r)
-          | None => None
+          | Ok r => Ok (if b then r else m :: r)
+          | e => e
           end
-        | None => None
+        | XG => GErr
+        | XO => OOF
         end
       end.
 
@@ -168,12 +173,12 @@ Section Engine.
           match rec d s i with
           | Ok ms =>
             match filter_excl (rexcl ru) ms with
-            | Some ms' =>
+            | Ok ms' =>
               match set_of ms' with
               | [] => PErr
               | st => Ok (map (fun m => mk [Nd (rname ru) (nodes m)] (mend m)) (sort_desc (sh st)))
               end
-            | None => GErr
+            | e => e
             end
           | r => r
           end
